@@ -126,6 +126,10 @@ def run_case(case):
     except Exception as e:
         out["pre"] = f"generated document is not readable: {type(e).__name__}: {e}"[:200]
         return out
+    if rng.random() < 0.3:
+        # a closing comment before ===END=== (Document.trailing_comments): not content, must not disturb the seal
+        ast.trailing_comments = ["closing note"]
+        cnt("with_document_trailing_comment")
 
     # ---- in memory ---------------------------------------------------------------------------------
     sealed = guarded("inmemory", lambda: seal_document(ast))
